@@ -69,6 +69,16 @@ def run(ctx):
             if direct and n_in[2] < 11 and rng.random() < 0.7:
                 n_in[2] = rng.choice([11, 12, 13])         # names s9 / s10 ... : the two orders differ
                 size[perm[2]] = n_in[2]
+            # names with '-', ' ', '+' right after a common stem: sorted(iterdir()) - the documented order - compares whole
+            # file names ("s01-b.png" < "s01.png"), which is NOT the order of the stems
+            tricky = None
+            if not direct and rng.random() < 0.3:
+                cands = [f"s{i // 4:02d}" + ["", "-b", " recut", "+x"][i % 4] for i in range(4 * n_in[2])][:n_in[2]]
+                ext_probe = "png"
+                tricky = None     # filled per directory below (depends on the extension)
+                tricky_cands = cands
+            else:
+                tricky_cands = None
             stacks = []
             dirs = []
             for d in range(ndirs):
@@ -84,11 +94,13 @@ def run(ctx):
                 ddir = os.path.join(tmp, ["red", "green", "blue"][d] if ndirs > 1 else "slices")
                 os.makedirs(ddir)
                 ext = "png" if rgb else rng.choice(["png", "tif"])
+                if tricky_cands:
+                    tricky = [os.path.splitext(n)[0] for n in sorted(c + "." + ext for c in tricky_cands)]
                 for s in range(n_in[2]):
                     kw = {"photometric": "minisblack"} if ext == "tif" else {}
                     # direct API use: the caller passes its own list, here in NUMERIC order of names that are not
                     # zero-padded (s9 before s10), which is not the lexicographic order
-                    nm = f"s{s}.{ext}" if direct else f"s{s:04d}.{ext}"
+                    nm = f"s{s}.{ext}" if direct else (tricky[s] + "." + ext if tricky else f"s{s:04d}.{ext}")
                     skimage.io.imsave(os.path.join(ddir, nm), st[s], check_contrast=False, **kw)
                 dirs.append(ddir)
             dest = os.path.join(tmp, "ds")
@@ -100,7 +112,7 @@ def run(ctx):
             with open(os.path.join(dest, "info"), "w") as f:
                 json.dump(info, f)
             opts = {"flat": rng.random() < 0.5, "gzip": rng.random() < 0.5}
-            desc = {"orientation": code, "direct_api_numeric_names": direct, "input_size_col_row_slice": n_in, "input_chunk": cs_in, "dtype": dt,
+            desc = {"orientation": code, "direct_api_numeric_names": direct, "tricky_names": bool(tricky_cands), "input_size_col_row_slice": n_in, "input_chunk": cs_in, "dtype": dt,
                     "rgb": rgb, "directories": ndirs, "output_dtype": out_dt, "options": opts}
             import pathlib
             recorded = []
